@@ -79,6 +79,9 @@ var whitelist = []FuncSpec{
 	{"pkg/provider", "", "NewEndpoint"},
 	{"pkg/provider", "", "NewEndpointWithURL"},
 	{"pkg/provider", "", "endpointConfigToEndpoints"},
+	{"pkg/provider", "Response", "makeAssertionResponse"},
+	{"pkg/provider", "Response", "makeFailedResponse"},
+	{"pkg/provider", "Response", "makeSuccessfulResponse"},
 }
 
 // extraFields are struct fields the hand-written handler models read although no translated function does.
@@ -111,6 +114,9 @@ type structInfo struct {
 	fields []string // used fields, Go names, in declaration order (filled at emission)
 	used   map[string]bool
 }
+
+// legacyOracles: fields of Gen.Ora that the existing property files spell out in their Ora literals
+var legacyOracles = map[string]bool{"now": true, "timeParse": true, "m_ValidateRedirectSignature": true, "m_ValidatePostSignature": true, "urlParse": true, "inflate": true, "m_GetResponseSigningKey": true}
 
 type oracle struct {
 	name string
@@ -1860,8 +1866,18 @@ func (w *world) emitLean() string {
 	}
 	for _, n := range w.oraOrd {
 		o := w.oracles[n]
-		if o.dflt != "" {
-			fmt.Fprintf(&sb, "  /-- %s -/\n  %s : %s := %s\n", o.doc, o.name, o.typ, o.dflt)
+		d := o.dflt
+		if d == "" && !legacyOracles[o.name] {
+			// every oracle added after the first property files were written gets a default, so that hand-written Ora
+			// literals (non-vacuity examples) stay valid when the translated code starts to consult one more library call
+			parts := splitTop(o.typ, " → ")
+			d = "default"
+			if len(parts) > 1 {
+				d = "fun" + strings.Repeat(" _", len(parts)-1) + " => default"
+			}
+		}
+		if d != "" {
+			fmt.Fprintf(&sb, "  /-- %s -/\n  %s : %s := %s\n", o.doc, o.name, o.typ, d)
 		} else {
 			fmt.Fprintf(&sb, "  /-- %s -/\n  %s : %s\n", o.doc, o.name, o.typ)
 		}
